@@ -66,7 +66,7 @@ def gen_case(ctx, idx, stream='case'):
     if c['source'] == 'single':
         c['planes'] = 1
     else:
-        c['planes'] = r.choice([1, 2, 2, 3, 3, 3, 4, 5, 6])
+        c['planes'] = r.choice([1, 2, 2, 3, 3, 3, 4, 5, 6, 6, 11, 13])      # a tail beyond 9 (two-digit frame numbers)
     u = r.random()
     if u < 0.45:
         c['rows'], c['cols'] = r.randint(1, 3), r.randint(1, 4)         # many frames with < 8 pixels
@@ -956,6 +956,21 @@ def _drift_factor(ctx):
     return 4 if (_DRIFT and ctx.tier == 'quick' and not ctx.search_mode) else 1
 
 
+def _many_segments(ctx, reqs, pending):
+    """A few masks with several hundred segments (labels and channel indices beyond one byte)."""
+    for idx in range(1 if ctx.tier == 'quick' else 4):
+        r = ctx.rng('many', idx)
+        nseg = r.choice([260, 300])
+        typ = r.choice(['BINARY', 'FRACTIONAL', 'LABELMAP'])
+        layout = r.choice(['3d', '4d'])
+        c = {'idx': idx, 'stream': 'many', 'seed': ctx.seed, 'tier': ctx.tier, 'source': r.choice(['series', 'enhanced']),
+             'planes': 2, 'rows': 3, 'cols': 5, 'src_order': [1, 0], 'type': typ, 'dtype': 'uint16' if layout == '3d' else 'uint8',
+             'layout': layout, 'segs': list(range(1, nseg + 1)), 'mfv': 255, 'omit': True, 'empty': 'none',
+             'density': 0.8, 'ts': 'Explicit VR Little Endian', 'workers': 0, 'bad': None, 'read_perm_seed': idx,
+             'mem': 'C'}
+        run_case(ctx, c, reqs, pending, paths=('memory', 'lazy'))
+
+
 def _exhaustive_sizes(ctx, reqs, pending):
     """Finite sub-domain enumerated completely: BINARY, 1 x n frames for every n in 1..N and every plane count
     1..P (all residues mod 8 on both sides of 8 pixels, every number of carried bits), both empty-frame policies."""
@@ -984,6 +999,7 @@ def run(ctx):
     _helpers(ctx, reqs, pending)
     if not ctx.search_mode:
         _exhaustive_sizes(ctx, reqs, pending)
+    _many_segments(ctx, reqs, pending)
     for idx in range(ctx.n(480, 5000) * _drift_factor(ctx)):
         c = gen_case(ctx, idx)
         run_case(ctx, c, reqs, pending)
